@@ -209,7 +209,7 @@ def hist_expand(acc, batch, last=False, meta=None):
 
 
 HIST_QUICK = [("fork", "slurm", True, 4), ("chain", "slurm", False, 3), ("chain", "sge", True, 3), ("fork", "lsf", True, 3)]
-HIST_THOROUGH = [(wf, be, acct, 5 if wf != "diamond" else 4) for wf in ("fork", "chain", "diamond") for be, acct in (("slurm", True), ("slurm", False), ("sge", True), ("lsf", True))]
+HIST_THOROUGH = [(wf, be, acct, 7 if wf != "diamond" else 5) for wf in ("fork", "chain", "diamond") for be, acct in (("slurm", True), ("slurm", False), ("sge", True), ("lsf", True))]
 
 
 def run(ctx):
